@@ -7,19 +7,23 @@ PROPERTY = {
     'explanation': 'two parts.  PROVED (pyvc), for mappings of any size: '
     'unders_to_dashes_in_keys / dashes_to_unders_in_keys rewrite exactly the '
     'key texts (every pair, values and everything else untouched); '
-    'map_attribute_to_index and index_attribute_to_map compute exactly the '
-    'documented mapping (m2i_pairs / i2m_pairs: same keys in the same '
-    'order, each value extended by / stripped of the key attribute, short '
-    'form expanded / collapsed), change nothing else of the node, and do '
-    'nothing at all when not applicable.  BOUNDED (labelled bounded, not '
-    'counted as proved): seq_attribute_to_map, map_attribute_to_seq and the '
+    'map_attribute_to_index, index_attribute_to_map and seq_attribute_to_map '
+    'compute exactly the documented mapping (m2i_pairs / i2m_pairs / '
+    's2m_pairs: same keys / items in the same order, each value extended by '
+    '/ stripped of the key attribute, short form expanded / collapsed), '
+    'change nothing else of the node, do nothing at all when not '
+    'applicable, and report duplicate keys only in strict mode.  BOUNDED '
+    '(labelled bounded, not counted as proved): map_attribute_to_seq and the '
     'inverse laws of all four are compared, on an exhaustively enumerated '
     'family of small nodes, with an oracle over ordered dictionaries written '
     'from the documentation, together with A-TREE preservation.  Four '
     'defects found this way are repaired in /repo (D13, D14, D18, D19).',
     'trusted': ['E-REPLACE: str.replace for single characters (inverse on '
                 'strings free of the target character) - bounded check',
-                'A-TREE, A-LIST'],
+                'A-TREE, A-LIST',
+                'A-DETACH: Node.remove_attribute does not modify the node it '
+                'removes (verified body: filter comprehension); a reference '
+                'the caller holds to it keeps the pre-call value'],
     'assumptions': [],
 }
 
@@ -36,3 +40,5 @@ def check(run):
                           H + 'seq_items',
                           H + 'seq_attribute_to_map'])
     transforms_bounded(run)
+    from checks.main import nodecross_bounded
+    nodecross_bounded(run)
